@@ -101,6 +101,9 @@ func (this *Hnsw) Insert(id uuid.UUID, value math.Vector, metadata Metadata, ver
 	for entrypoint == nil {
 		// The index was emptied by concurrent removals after the check above.
 		if atomic.CompareAndSwapPointer(&this.entrypoint, nil, unsafe.Pointer(vertex)) {
+			if vertex.isDeleted() {
+				this.handOverEntrypoint()
+			}
 			return nil
 		}
 		entrypoint = (*hnswVertex)(atomic.LoadPointer(&this.entrypoint))
@@ -142,7 +145,10 @@ func (this *Hnsw) Insert(id uuid.UUID, value math.Vector, metadata Metadata, ver
 	verifYield("insert.beforeEntrypointCAS")
 	entrypoint = (*hnswVertex)(atomic.LoadPointer(&this.entrypoint))
 	if entrypoint != nil && vertex.level > entrypoint.level {
-		atomic.CompareAndSwapPointer(&this.entrypoint, unsafe.Pointer(entrypoint), unsafe.Pointer(vertex))
+		if atomic.CompareAndSwapPointer(&this.entrypoint, unsafe.Pointer(entrypoint), unsafe.Pointer(vertex)) && vertex.isDeleted() {
+			// Removed by a concurrent Remove while it was being inserted.
+			this.handOverEntrypoint()
+		}
 	}
 
 	return nil
@@ -177,35 +183,7 @@ func (this *Hnsw) Remove(id uuid.UUID) error {
 	}
 
 	verifYield("remove.afterUnstore")
-	currEntrypoint := atomic.LoadPointer(&this.entrypoint)
-	if (*hnswVertex)(currEntrypoint) == vertex {
-		minDistance := math.MaxFloat
-		var closestNeighbor *hnswVertex = nil
-
-		for l := vertex.level; l >= 0; l-- {
-			vertex.edgeMutexes[l].RLock()
-			for neighbor, distance := range vertex.edges[l] {
-				if neighbor.isDeleted() {
-					continue
-				}
-				if distance < minDistance {
-					minDistance = distance
-					closestNeighbor = neighbor
-				}
-			}
-			vertex.edgeMutexes[l].RUnlock()
-
-			if closestNeighbor != nil {
-				break
-			}
-		}
-		if closestNeighbor == nil {
-			// No live neighbor to hand over to. Fall back to any live vertex
-			// so that a non-empty index never loses its entrypoint.
-			closestNeighbor = this.highestLevelVertex()
-		}
-		atomic.CompareAndSwapPointer(&this.entrypoint, currEntrypoint, unsafe.Pointer(closestNeighbor))
-	}
+	this.handOverEntrypoint()
 	verifYield("remove.afterHandover")
 
 	for l := vertex.level; l >= 0; l-- {
@@ -230,6 +208,45 @@ func (this *Hnsw) Remove(id uuid.UUID) error {
 	}
 
 	return nil
+}
+
+// Hand over while the entry point is a removed vertex: the one being removed
+// by the caller, or one that was installed as entry point (by a concurrent
+// hand-over or promotion) just before or after it was removed.
+func (this *Hnsw) handOverEntrypoint() {
+	for {
+		currEntrypoint := atomic.LoadPointer(&this.entrypoint)
+		removed := (*hnswVertex)(currEntrypoint)
+		if removed == nil || !removed.isDeleted() {
+			break
+		}
+		minDistance := math.MaxFloat
+		var closestNeighbor *hnswVertex = nil
+
+		for l := removed.level; l >= 0; l-- {
+			removed.edgeMutexes[l].RLock()
+			for neighbor, distance := range removed.edges[l] {
+				if neighbor.isDeleted() {
+					continue
+				}
+				if distance < minDistance {
+					minDistance = distance
+					closestNeighbor = neighbor
+				}
+			}
+			removed.edgeMutexes[l].RUnlock()
+
+			if closestNeighbor != nil {
+				break
+			}
+		}
+		if closestNeighbor == nil {
+			// No live neighbor to hand over to. Fall back to any live vertex
+			// so that a non-empty index never loses its entrypoint.
+			closestNeighbor = this.highestLevelVertex()
+		}
+		atomic.CompareAndSwapPointer(&this.entrypoint, currEntrypoint, unsafe.Pointer(closestNeighbor))
+	}
 }
 
 func (this *Hnsw) Search(ctx context.Context, query math.Vector, k uint) (SearchResult, error) {
